@@ -10,6 +10,7 @@ import (
 	"golang.org/x/tools/go/ssa"
 
 	"slipcheck/core"
+	"slipcheck/lenflow"
 )
 
 const clPath = core.SlipPath + "/pkg/cl"
@@ -35,12 +36,28 @@ func runC14(c *core.Ctx, r *core.Reporter) {
 }
 
 // reachableStrings: string constants in functions statically reachable from fn inside the module (depth-limited).
-func reachableStrings(fn *ssa.Function, depth int, seen map[*ssa.Function]bool, out map[string]bool) {
+// Blocks that end in a raise (a call of a no-return function, or panic) are skipped: the keyword
+// names listed in an "unknown keyword" message are not comparisons.
+func reachableStrings(fn *ssa.Function, depth int, seen map[*ssa.Function]bool, out map[string]bool, noReturn func(*ssa.Function) bool) {
 	if fn == nil || seen[fn] || depth > 4 || fn.Blocks == nil {
 		return
 	}
 	seen[fn] = true
 	for _, b := range fn.Blocks {
+		raises := false
+		for _, in := range b.Instrs {
+			switch x := in.(type) {
+			case *ssa.Panic:
+				raises = true
+			case *ssa.Call:
+				if g := x.Call.StaticCallee(); g != nil && noReturn != nil && noReturn(g) {
+					raises = true
+				}
+			}
+		}
+		if raises {
+			continue
+		}
 		for _, in := range b.Instrs {
 			var rands [12]*ssa.Value
 			for _, op := range in.Operands(rands[:0]) {
@@ -50,19 +67,20 @@ func reachableStrings(fn *ssa.Function, depth int, seen map[*ssa.Function]bool, 
 			}
 			if call, ok := in.(*ssa.Call); ok {
 				if g := call.Call.StaticCallee(); g != nil && g.Pkg != nil && core.InModule(g.Pkg.Pkg) {
-					reachableStrings(g, depth+1, seen, out)
+					reachableStrings(g, depth+1, seen, out, noReturn)
 				}
 			}
 		}
 	}
 	for _, af := range fn.AnonFuncs {
-		reachableStrings(af, depth, seen, out)
+		reachableStrings(af, depth, seen, out, noReturn)
 	}
 }
 
 func c14kw(c *core.Ctx, r *core.Reporter) {
 	const rule = "C14.kw"
-	r.Rule(rule, "for every sequence function of the property's family whose documented lambda list has &key parameters, each documented keyword :name occurs among the string constants of the functions statically reachable from its Call method (it is compared with an argument somewhere)", 60)
+	r.Rule(rule, "for every sequence function of the property's family whose documented lambda list has &key parameters, each documented keyword :name occurs among the string constants of the functions statically reachable from its Call method, outside blocks that raise (it is compared with an argument somewhere; the list of keywords in an error message does not count)", 60)
+	an := lenflow.New(c)
 	for _, b := range c.Registry() {
 		if b.Call == nil || !b.ArgsLit || b.Name == "" || !seqFamily(b.Name) {
 			continue
@@ -93,7 +111,7 @@ func c14kw(c *core.Ctx, r *core.Reporter) {
 			continue
 		}
 		strs := map[string]bool{}
-		reachableStrings(fn, 0, map[*ssa.Function]bool{}, strs)
+		reachableStrings(fn, 0, map[*ssa.Function]bool{}, strs, an.NoReturn)
 		for _, k := range keys {
 			k = strings.TrimPrefix(k, ":")
 			found := strs[":"+k] || strs[k]
